@@ -86,6 +86,12 @@ func (h ErrorHandler) errorPage(w http.ResponseWriter, r *http.Request, code int
 			return
 		}
 		defer errorPage.Close()
+		if st, err := errorPage.Stat(); err == nil && st.IsDir() {
+			// nothing can be copied from it, and that must be known before the header goes out
+			h.Log.Printf("[NOTICE %d %s] could not load error page: %s is a directory", code, r.URL.String(), pagePath)
+			httpserver.DefaultErrorFunc(w, r, code)
+			return
+		}
 		// Get content type by extension
 		contentType := mime.TypeByExtension(filepath.Ext(pagePath))
 		if contentType == "" {
